@@ -15,6 +15,8 @@ static const char* const FAULT_NAME[] = {"none", "decompressor-read-throws", "de
 
 struct Frame {
     std::string header, blob;
+    bool override_prefix = false;  // (fault: the 4-byte length in front of the BlobHeader says something else)
+    uint32_t prefix = 0;
 };
 // split a PBF file (from the harness encoder) into its frames
 static std::vector<Frame> pbf_frames(const std::string& f) {
@@ -66,7 +68,8 @@ static std::vector<Frame> pbf_frames(const std::string& f) {
 static std::string pbf_join(const std::vector<Frame>& frames) {
     std::string o;
     for (const auto& fr : frames) {
-        for (int sh : {24, 16, 8, 0}) o += static_cast<char>((fr.header.size() >> sh) & 0xff);
+        const size_t len = fr.override_prefix ? fr.prefix : fr.header.size();
+        for (int sh : {24, 16, 8, 0}) o += static_cast<char>((len >> sh) & 0xff);
         o += fr.header + fr.blob;
     }
     return o;
@@ -124,7 +127,27 @@ static void prop(Src& s) {
                 bad_blob_expected_known = true;
             }
             const bool first_is_zlib = s.boolean();
+            // one time in three the framing of the blob is broken instead of its content (certainly malformed: the format limits a
+            // BlobHeader to 64 KiB and a Blob to 32 MiB, and a BlobHeader must be a BlobHeader message)
+            const unsigned framing = s.chance(1, 3) ? 1 + static_cast<unsigned>(s.draw(3)) : 0;
             auto break_blob = [&](size_t k, bool zlib_garbage) {
+                if (framing == 1 && k == n) {
+                    static const uint32_t sizes[] = {65537, 70000, 0x00ffffffU, 0x7fffffffU, 0x80000000U, 0xffffffffU};
+                    frames[k].override_prefix = true;
+                    frames[k].prefix = sizes[s.draw(sizeof(sizes) / sizeof(sizes[0]))];
+                    fault_text += " (blob " + std::to_string(k) + " of " + std::to_string(frames.size() - 1) + ": BlobHeader length prefix says " + std::to_string(frames[k].prefix) + ")";
+                    return;
+                }
+                if (framing == 2 && k == n) {
+                    frames[k].header = f_bytes(1, "OSMData") + f_int64(3, 32LL * 1024 * 1024 + 1 + static_cast<int64_t>(s.draw(1000)));
+                    fault_text += " (blob " + std::to_string(k) + " of " + std::to_string(frames.size() - 1) + ": datasize beyond 32 MiB)";
+                    return;
+                }
+                if (framing == 3 && k == n) {
+                    frames[k].header = std::string(frames[k].header.size(), '\xff');
+                    fault_text += " (blob " + std::to_string(k) + " of " + std::to_string(frames.size() - 1) + ": BlobHeader bytes are all 0xff)";
+                    return;
+                }
                 if (zlib_garbage) {
                     frames[k].blob = f_int64(2, 200) + f_bytes(3, "this is not zlib data");
                     fault_text += " (blob " + std::to_string(k) + " of " + std::to_string(frames.size() - 1) + ": garbage instead of zlib data)";
@@ -136,6 +159,7 @@ static void prop(Src& s) {
                 }
                 frames[k].header = f_bytes(1, "OSMData") + f_int64(3, static_cast<int64_t>(frames[k].blob.size()));
             };
+            if (framing) vp::count("broken_blob_framing");
             break_blob(n, first_is_zlib);
             {
                 // the error this blob produces when it is the only broken one (single-threaded reference run)
